@@ -273,6 +273,7 @@ Proof.
     + destruct (t_pc (tasks s t)) eqn:Ep; try exact H. apply TI_upd; [exact H|]. intros Hp. cbn in Hp. rewrite Ep in Hp. discriminate.
   - inversion Hs; subst. intros x. unfold advance. cbn. eapply TI_mono; [|apply H]. lia.
   - destruct (ready s) eqn:E; inversion Hs; subst. apply TI_run_item. eapply TIall_tn; [|exact H]; reflexivity.
+  - inversion Hs; subst. eapply TIall_tn; [apply tn_transport_close|exact H].
 Qed.
 
 Lemma TI_init : TIall (init c).
